@@ -22,13 +22,22 @@
 (*   `request_stream.next()` arm, Shutdown | None (stream ended)           *)
 (*        -> Shutdown       the loop breaks, in-flight futures are dropped *)
 (*   the runtime's clock -> Advance(t)                                     *)
+(*   a stalled executor  -> Stall(t)   time passes while the manager task  *)
+(*                          is NOT scheduled (busy thread, long poll of     *)
+(*                          another task): due instants are passed, the    *)
+(*                          elapsed timers are all delivered in one turn   *)
 (*                                                                         *)
 (* Virtual time: `now` is an integer instant.  A request accepted at `at`  *)
 (* whose client takes `d` to answer (NEVER = it never does) has its        *)
 (* response due at at+d and its deadline at at+T.  Time is *urgent*: it    *)
 (* cannot pass an instant at which a pending request is due (the real      *)
 (* manager is a single task on a runtime that only advances the clock when *)
-(* nothing is runnable), so every event happens exactly at its instant.    *)
+(* nothing is runnable), so every event happens exactly at its instant -   *)
+(* except after Stall(t), which jumps over due instants: the requests it   *)
+(* passed (`lagged`) are answered at the end of the jump, before time      *)
+(* moves on.  WHICH event a request gets is still decided by its delay     *)
+(* against the timeout, never by when the manager got to look: a response  *)
+(* that was ready within the timeout must be delivered as the response.    *)
 (*                                                                         *)
 (* Left nondeterministic, because the property leaves it open (DESIGN 5.4):*)
 (*  - a response completing at exactly the deadline: ClientResponds and    *)
@@ -36,6 +45,12 @@
 (*    response first);                                                     *)
 (*  - the order of events that are due at the same instant (select!        *)
 (*    randomises its branches; FuturesUnordered has no order);             *)
+(*  - a response that completed AFTER the deadline while the manager was   *)
+(*    not scheduled (response instant and deadline inside one Stall), if   *)
+(*    LateResponseOK: response or timeout failure.  A timeout is a lower   *)
+(*    bound on the waiting of an observer that is not scheduled; the real  *)
+(*    tokio::time::Timeout polls the response first and delivers it.  With *)
+(*    LateResponseOK = FALSE only the timeout failure is allowed there.    *)
 (*  - Shutdown at any instant: it is outside "while running", pending      *)
 (*    requests are then dropped unanswered;                                *)
 (*  - the environment: which requests arrive when, and what the client     *)
@@ -61,7 +76,9 @@ CONSTANTS REQ,      \* request ids (one per client order id)
           SIDE,     \* sides of opens
           PRICE,    \* prices of opens
           QTY,      \* quantities of opens (positive)
-          BUNDLE    \* abstract values for (order kind, time in force)
+          BUNDLE,   \* abstract values for (order kind, time in force)
+          STALL,    \* instants the model checker lets a stalled executor jump to
+          LateResponseOK  \* see the header: a late response observed together with the deadline
 
 NEVER == -1
 
@@ -69,9 +86,10 @@ VARIABLES now,      \* current virtual instant
           running,  \* the select loop has not broken
           req,      \* [REQ -> script]: what was accepted and what the client will do
           pending,  \* ids whose RequestFuture is in flight
-          out       \* sequence of events sent on the response channel
+          out,      \* sequence of events sent on the response channel
+          lagged    \* ids whose due instant was passed while the manager was not scheduled
 
-vars == <<now, running, req, pending, out>>
+vars == <<now, running, req, pending, out, lagged>>
 
 (***************************************************************************)
 (* Scripts: a request as accepted plus the client's scripted behaviour.    *)
@@ -146,6 +164,7 @@ Init == /\ now = 0
         /\ req = [r \in REQ |-> NoReq]
         /\ pending = {}
         /\ out = <<>>
+        /\ lagged = {}
 
 \* request_stream.next() yields Open/Cancel: the request future is created now
 Accept(r, s) ==
@@ -154,30 +173,31 @@ Accept(r, s) ==
     /\ IsScript(s, now)
     /\ req' = [req EXCEPT ![r] = s]
     /\ pending' = pending \cup {r}
-    /\ UNCHANGED <<now, running, out>>
+    /\ UNCHANGED <<now, running, out, lagged>>
 
-\* the client's future completes no later than the deadline
+\* the client's future has completed, no later than the deadline (urgency: now = RespAt(r)
+\* unless a Stall passed it; then RespAt(r) > Deadline(r) is possible, see LateResponseOK)
 CanRespond(r) == /\ running /\ r \in pending
                  /\ req[r].d # NEVER
-                 /\ now = RespAt(r)
-                 /\ now <= Deadline(r)
+                 /\ now >= RespAt(r)
+                 /\ (RespAt(r) > Deadline(r) => LateResponseOK)
 
 ClientResponds(r) ==
     /\ CanRespond(r)
     /\ Emit(r, "resp")
     /\ pending' = pending \ {r}
-    /\ UNCHANGED <<now, running, req>>
+    /\ UNCHANGED <<now, running, req, lagged>>
 
 \* the timeout elapses and the client's future has not completed earlier
 CanTimeout(r) == /\ running /\ r \in pending
-                 /\ now = Deadline(r)
+                 /\ now >= Deadline(r)
                  /\ (req[r].d = NEVER \/ RespAt(r) >= Deadline(r))
 
 TimeoutFires(r) ==
     /\ CanTimeout(r)
     /\ Emit(r, "timeout")
     /\ pending' = pending \ {r}
-    /\ UNCHANGED <<now, running, req>>
+    /\ UNCHANGED <<now, running, req, lagged>>
 
 \* time passes, but never beyond an instant at which a pending request is due
 CanAdvance(t) == /\ t > now
@@ -186,6 +206,14 @@ CanAdvance(t) == /\ t > now
 Advance(t) ==
     /\ CanAdvance(t)
     /\ now' = t
+    /\ UNCHANGED <<running, req, pending, out, lagged>>
+
+\* time passes while the manager task is not scheduled: due instants may be passed; what was
+\* passed is remembered, and (CanAdvance) must be answered before time moves on normally
+Stall(t) ==
+    /\ t > now
+    /\ now' = t
+    /\ lagged' = lagged \cup {r \in pending : Due(r) < t}
     /\ UNCHANGED <<running, req, pending, out>>
 
 \* ExecutionRequest::Shutdown or the end of the request stream
@@ -193,7 +221,7 @@ Shutdown ==
     /\ running
     /\ running' = FALSE
     /\ pending' = {}
-    /\ UNCHANGED <<now, req, out>>
+    /\ UNCHANGED <<now, req, out, lagged>>
 
 (***************************************************************************)
 (* The model checker's next-state relation.  Requests arrive at the        *)
@@ -212,8 +240,9 @@ AcceptAny  == \E r \in REQ : /\ ~Accepted(r) /\ r = NextNew
 RespondAny == \E r \in REQ : ClientResponds(r)
 TimeoutAny == \E r \in REQ : TimeoutFires(r)
 AdvanceAny == \E t \in Targets : Advance(t)
+StallAny   == \E t \in STALL : Stall(t)
 
-Next == AcceptAny \/ RespondAny \/ TimeoutAny \/ AdvanceAny \/ Shutdown
+Next == AcceptAny \/ RespondAny \/ TimeoutAny \/ AdvanceAny \/ StallAny \/ Shutdown
 
 Spec == Init /\ [][Next]_vars
 
@@ -227,7 +256,7 @@ FairSpec == /\ Spec
 (***************************************************************************)
 TypeOK == /\ now \in Nat
           /\ running \in BOOLEAN
-          /\ pending \subseteq REQ
+          /\ pending \subseteq REQ /\ lagged \subseteq REQ
           /\ \A r \in REQ : req[r] = NoReq \/ IsScript(req[r], req[r].at)
           /\ \A i \in 1..Len(out) : out[i].id \in REQ /\ out[i].k \in {"resp", "timeout"}
 
@@ -240,15 +269,20 @@ AtMostOne == Cardinality({out[i].id : i \in 1..Len(out)}) = Len(out)
 ExactlyOnce == /\ \A r \in REQ : r \in pending => Accepted(r) /\ ~Answered(r)
                /\ \A r \in REQ : Answered(r) => Accepted(r)
                /\ running => \A r \in REQ : Accepted(r) => (r \in pending \/ Answered(r))
-               /\ \A r \in pending : now <= Due(r)
+               /\ \A r \in pending \ lagged : now <= Due(r)
 
 \* the response iff it completed before the deadline, the timeout failure iff after; either at
-\* equality; each at its own instant
+\* equality (and, if LateResponseOK, for a late response passed together with its deadline by a
+\* Stall); each at its own instant - or, when a Stall passed that instant, not before it
+AtOK(e, due) == e.at >= due /\ (e.id \notin lagged => e.at = due)
 Kind == \A i \in 1..Len(out) :
           LET e == out[i]
               s == req[e.id]
-          IN  /\ e.k = "resp"    => s.d # NEVER /\ s.d <= T /\ e.at = s.at + s.d
-              /\ e.k = "timeout" => (s.d = NEVER \/ s.d >= T) /\ e.at = s.at + T
+          IN  /\ e.k = "resp"    => /\ s.d # NEVER
+                                    /\ (s.d <= T \/ (LateResponseOK /\ e.id \in lagged))
+                                    /\ AtOK(e, s.at + s.d)
+              /\ e.k = "timeout" => /\ (s.d = NEVER \/ s.d >= T)
+                                    /\ AtOK(e, s.at + T)
 
 \* right exchange, instrument, order id; opens carry the request's order fields; the state is the
 \* client's answer (zero remaining => FullyFilled) or the timeout failure
